@@ -29,7 +29,7 @@ ASSUMPTIONS = [
     'an alias and a dataset of the SAME part never share a name (the code documents no check for it)',
     'rejections may surface at construction (DictDatabase) or at the first data access (JsonDatabase)',
 ]
-N = {'quick': 800, 'thorough': 6000}
+N = {'quick': 800, 'thorough': 2500}
 DS_NAMES = ['train', 'dev', 'test', 'extra']
 AL_NAMES = ['all', 'mix', 'train']  # 'train' collides with a dataset name on purpose (across parts only)
 IDS = ['a', 'b', 'c', 'd', 'e']
